@@ -10,7 +10,9 @@ Open Scope N_scope.
 Record case := Case {
   k_cap : nat;
   k_pool : list cert;
-  k_steps : list (op * state);            (* operation, state observed after it *)
+  k_steps : list (option op * state);     (* operation (None: operations ran concurrently,
+                                             unordered -- only the quiescent state is observed),
+                                             state observed after it *)
   k_queries : list (name * list hash)     (* AllMatchingCertificates(name) -> hashes, at the end *)
 }.
 
@@ -29,12 +31,19 @@ Definition get_op : dec op :=
    else if tag =? 6 then u <- get_list (get_pair get_str get_z) ;; ret (OSetOCSP u)
    else if tag =? 7 then h <- get_str ;; v <- get_str ;; ret (OSetARI h v)
    else (fun _ => None))%Z.
+(** tag 8: a batch of operations that ran concurrently (free-running goroutines); their order
+    is unknown, the model adopts the quiescent state, the specification is evaluated on it *)
+Definition get_step_op : dec (option op) :=
+  (fun l => match l with
+            | 8%Z :: r => Some (None, r)
+            | _ => match get_op l with Some (o, r) => Some (Some o, r) | None => None end
+            end).
 Definition get_state : dec state :=
   (c <- get_list (get_pair get_str get_cert) ;;
    i <- get_list (get_pair get_str (get_list get_str)) ;; ret (St c i))%Z.
 Definition get_case : dec case :=
   (cap <- get_nat ;; pool <- get_list get_cert ;;
-   steps <- get_list (get_pair get_op get_state) ;;
+   steps <- get_list (get_pair get_step_op get_state) ;;
    qs <- get_list (get_pair get_str (get_list get_str)) ;;
    ret (Case cap pool steps qs))%Z.
 
@@ -46,13 +55,15 @@ Definition state_eqb (m obs : state) : bool :=
   amap_eqb cert_eqb (cache m) (cache obs) && amap_eqb strs_eqb (index m) (index obs).
 
 (** model side: replay, compare after every operation; 0 = agrees *)
-Fixpoint replay (cap : nat) (s : state) (steps : list (op * state)) : list bool * state :=
+Fixpoint replay (cap : nat) (s : state) (steps : list (option op * state)) : list bool * state :=
   match steps with
   | [] => ([], s)
-  | (o, obs) :: r =>
+  | (Some o, obs) :: r =>
       let s' := step cap s o in
       let (bs, sf) := replay cap s' r in
       (state_eqb s' obs :: bs, sf)
+  | (None, obs) :: r =>
+      let (bs, sf) := replay cap obs r in (true :: bs, sf)
   end.
 
 Definition model_agrees (c : case) : bool :=
@@ -79,8 +90,10 @@ Fixpoint dedup (l : list str) : list str :=
   | [] => []
   | x :: r => if mem_str x r then dedup r else x :: dedup r
   end.
+Definition certs_of_step (o : option op) : list cert :=
+  match o with Some o => certs_of_op o | None => [] end.
 Definition case_certs (c : case) : list cert :=
-  k_pool c ++ flat_map (fun st => certs_of_op (fst st)) (k_steps c).
+  k_pool c ++ flat_map (fun st => certs_of_step (fst st)) (k_steps c).
 Definition base_names (c : case) : list name :=
   dedup (flat_map c_names (case_certs c) ++ map fst (k_queries c)).
 Definition base_hashes (c : case) : list hash := dedup ([] :: map c_hash (case_certs c)).
@@ -105,13 +118,13 @@ Definition readd_ok (prev : state) (c : cert) (next : state) : bool :=
   | Some _, None => false
   | None, _ => true
   end.
-Definition step_spec_b (prev : state) (o : op) (next : state) : bool :=
+Definition step_spec_b (prev : state) (o : option op) (next : state) : bool :=
   match o with
-  | OAdd c _ => readd_ok prev c next
+  | Some (OAdd c _) => readd_ok prev c next
   | _ => true
   end.
 
-Fixpoint steps_spec (prev : state) (steps : list (op * state)) : bool :=
+Fixpoint steps_spec (prev : state) (steps : list (option op * state)) : bool :=
   match steps with
   | [] => true
   | (o, obs) :: r => step_spec_b prev o obs && steps_spec obs r
@@ -151,7 +164,7 @@ Definition explain_line (l : list Z) : list Z :=
       let bn := base_names c in
       let bh := base_hashes c in
       let (bs, sf) := replay (k_cap c) init (k_steps c) in
-      let fix go (prev : state) (bs : list bool) (steps : list (op * state)) : list Z :=
+      let fix go (prev : state) (bs : list bool) (steps : list (option op * state)) : list Z :=
         match bs, steps with
         | b :: bs', (o, obs) :: r =>
             code b (inv_b nm (k_cap c) (state_names bn obs) (state_hashes bh obs) obs && step_spec_b prev o obs)
